@@ -221,6 +221,17 @@ def byte_level(base, rng, nflips):
         if base.partial:
             mustnot.add(ntg_complete + 1)
         out.append(("truncate@%d" % cut, wal[:cut], must, mustnot))
+    # garbage AFTER the last record: every message id the scanner knows, alone at the end of the file and followed by a
+    # few bytes (an incomplete message)
+    for mid in (0, 1, 2, 3, 255):
+        for tail in (b"", b"\x00\x00\x00", b"\x01" * 9):
+            mustnot, must = set(), set()
+            for t in range(1, ntg_complete + 1):
+                if not base.checkpointed(t):
+                    must.add(t)
+            if base.partial:
+                continue      # the file already ends inside a record
+            out.append(("trailing:%02x+%d#" % (mid, len(tail)), wal + bytes([mid]) + tail, must, mustnot))
     allbits = [(o, b) for o in range(n) for b in range(8)]
     if nflips and nflips < len(allbits):
         # always: every bit of the bytes that steer the scanner (message ids, destination and status of transaction-info
@@ -234,8 +245,11 @@ def byte_level(base, rng, nflips):
             elif c["k"] == "LEN":
                 steer |= {c["off"], c["off"] + c["len"] - 1}
         must_bits = [(o, b) for o in sorted(steer) if o < n for b in range(8)]
+        always = set(must_bits)
         rest = [x for x in allbits if x[0] not in steer]
         allbits = must_bits + rng.sample(rest, min(len(rest), nflips))
+    if not (nflips and nflips < n * 8):
+        always = set()
     for o, b in allbits:
         c = cell_at(o)
         bb = bytearray(wal)
@@ -265,7 +279,7 @@ def byte_level(base, rng, nflips):
         tag = ""
         if c is not None and c["k"] == "TI" and o == c["off"] + 9 and b == 0 and (wal[o] ^ (1 << b)) == 1 and wal[c["off"] + 10] == 2:
             tag = "!commit-becomes-checkpoint"     # destination WAL (0) -> CHECKPOINT (1) of a COMMITCOMPLETE record
-        out.append(("flip@%d.%d%s" % (o, b, tag), bytes(bb), must, mustnot))
+        out.append(("flip@%d.%d%s%s" % (o, b, tag, "#" if (o, b) in always else ""), bytes(bb), must, mustnot))
     return out
 
 
@@ -303,8 +317,8 @@ def run(prop, tier):
         for label, data, must, mustnot in byte_level(base, rng, 120 if quick else 0):
             muts.append(("byte:" + label, data, must, mustnot))
         if quick and len(muts) > 330:
-            head = [m for m in muts if not m[0].startswith("byte:")]
-            tail = [m for m in muts if m[0].startswith("byte:")]
+            head = [m for m in muts if not m[0].startswith("byte:") or m[0].endswith("#")]     # '#': always replayed
+            tail = [m for m in muts if m[0].startswith("byte:") and not m[0].endswith("#")]
             rng.shuffle(tail)
             muts = head + tail[:max(0, 330 - len(head))]
         bdir = os.path.join(vlib.scratch(), "c06img_%d" % shi)
@@ -356,7 +370,7 @@ def run(prop, tier):
                 if label.startswith("dup:") and moved and "DupAbortsReplay" in known:
                     res.known_finding(known["DupAbortsReplay"], {"where": where, "missing": missing, "moved_aside": moved})
                     continue
-                if label.endswith("!commit-becomes-checkpoint") and "CommitBecomesCheckpoint" in known:
+                if "!commit-becomes-checkpoint" in label and "CommitBecomesCheckpoint" in known:
                     res.known_finding(known["CommitBecomesCheckpoint"], {"where": where, "missing": missing})
                     continue
                 res.violation("%s: intact committed transaction(s) %s preceding the damage were not applied: recovered %s" % (
